@@ -15,6 +15,8 @@ import Gql.Proofs.ParseWfType
 import Gql.Proofs.ParseWfValue
 import Gql.Proofs.ParseWfExec
 import Gql.Proofs.ParseWfDefs
+import Gql.Proofs.C08Paired
+import Gql.Proofs.C08ValuePaired
 /-!
 # C08 — Printing a parsed document and parsing it again gives the same AST
 
@@ -27,7 +29,7 @@ Strings are lists of code points.  `tokOf` projects the token out of the lexer's
 `(token, line bookkeeping)` result.
 -/
 namespace Gql.Props.C08
-open Gql Gql.Text
+open Gql Gql.Text Gql.Text.Pairs
 
 /-! ## Quoted strings -/
 
@@ -61,6 +63,32 @@ example : readString (printString [34, 92, 10, 13, 127, 8232, 128512, 97] ++ [32
 example : printString [34, 92, 10, 13, 127, 8232, 128512, 97] =
     [34, 92, 34, 92, 92, 92, 110, 92, 114, 92, 117, 48, 48, 55, 70, 8232, 128512, 97, 34] := by decide
 
+/-- **C08-1 for everything a STRING token can carry.**  `Paired s` (decidable): every code point of
+`s` is a Unicode scalar value, or a leading surrogate immediately followed by a trailing surrogate,
+or that trailing surrogate — exactly the values `read_string` can produce (`parse_wf_value_full`
+below: a lone surrogate is a syntax error, a verbatim pair is accepted as one SourceCharacter and
+kept as two code points).  `print_string` has no table entry for a surrogate
+(`escape_table_entries_decode`: every key is a scalar value), so `str.translate` copies both halves
+verbatim, and `read_string` steps two code points over the pair (`is_supplementary_code_point`):
+reading `print_string(s)` consumes exactly the printed text and yields `s`.  Generalises
+`printString_roundtrip` (`Paired.of_forall_scalar`). -/
+theorem printString_roundtrip_paired (s rest : List Nat) (st : LexState) (hs : Paired s) :
+    readString (printString s ++ rest) st 0 =
+      .ok (mkToken st .string 0 (printString s).length (some s)) :=
+  printStringWith_roundtrip_paired Generated.escapeTable escape_table_entries_decode
+    escape_table_covers_required s rest st hs
+
+-- non-vacuity: `a`, the verbatim pair U+D83D U+DE00, a quote, U+1F600 as one code point; a lone
+-- or reversed surrogate is not `Paired`; the pair is printed verbatim
+example : Paired [97, 0xD83D, 0xDE00, 34, 128512] ∧ ¬ Paired [0xD83D] ∧ ¬ Paired [0xDE00, 0xD83D] ∧
+    ¬ Paired [0xD83D, 97] := by decide
+example : printString [97, 0xD83D, 0xDE00, 34, 128512] = [34, 97, 0xD83D, 0xDE00, 92, 34, 128512, 34] := by
+  decide
+example : readString (printString [97, 0xD83D, 0xDE00, 34, 128512] ++ [32]) {} 0 =
+    .ok (mkToken {} .string 0 (printString [97, 0xD83D, 0xDE00, 34, 128512]).length
+      (some [97, 0xD83D, 0xDE00, 34, 128512])) :=
+  printString_roundtrip_paired _ _ _ (by decide)
+
 /-- Characters without a table entry are copied verbatim (`str.translate`). -/
 theorem printString_verbatim (c : Nat) (h : escapeLookup Generated.escapeTable c = none) :
     printString [c] = [34, c, 34] := by
@@ -88,6 +116,27 @@ example : tokOf (readBlockString
   block_roundtrip 70 _ false _ _ (by decide) (by decide)
 example : printBlockStringW 70 [32, 32, 97, 34, 34, 34, 10, 10, 32, 98, 10, 99, 92] false =
     [34, 34, 34, 10, 32, 32, 97, 92, 34, 34, 34, 10, 10, 32, 98, 10, 99, 92, 10, 34, 34, 34] := by decide
+
+/-- **C08-2 for everything a BLOCK_STRING token can carry**: `block_roundtrip` with `Paired v` (scalar
+values and verbatim leading+trailing surrogate pairs) in place of "all scalar" (proved by C09's
+builder: `Gql.Text.Pairs.printBlockStringW_roundtrip_paired`). -/
+theorem block_roundtrip_paired (width : Nat) (v : List Nat) (minimize : Bool) (rest : List Nat) (st : LexState)
+    (hs : Paired v) (hrep : BlockRepresentable v) :
+    tokOf (readBlockString (printBlockStringW width v minimize ++ rest) st 0) =
+      .ok (mkToken st .blockString 0 (printBlockStringW width v minimize).length (some v)) :=
+  printBlockStringW_roundtrip_paired width v minimize rest st hs hrep
+
+/-- **C08-2, re-indentation, `Paired` values**: `block_indent_roundtrip` with `Paired v`
+(re-indentation inserts spaces after line feeds only, so it never separates a pair). -/
+theorem block_indent_roundtrip_paired (k width : Nat) (v rest : List Nat) (st : LexState)
+    (hs : Paired v) (hrep : BlockRepresentable v) :
+    tokOf (readBlockString (indentLF k (printBlockStringW width v false) ++ rest) st 0) =
+      .ok (mkToken st .blockString 0 (indentLF k (printBlockStringW width v false)).length (some v)) := by
+  unfold readBlockString
+  exact indent_printed_roundtrip_loop_paired k width v rest st 0 st.lineStart hs hrep
+
+example : Paired [32, 97, 10, 0xD83D, 0xDE00, 34] ∧ BlockRepresentable [32, 97, 10, 0xD83D, 0xDE00, 34] := by
+  decide
 
 /-- **C08-2, the hypothesis is forced.**  Every value the lexer produces for a block string
 literal — any source text, any position — is block-representable.  So `block_roundtrip` covers
@@ -224,6 +273,35 @@ example : Val.wf true (.list [.int [49], .str [97, 10, 98] true, .obj [([97], .e
         Or.inr ⟨101, [43], [49, 48], rfl, Or.inr rfl, Or.inr (Or.inl rfl), by decide⟩⟩, rfl, rfl⟩
 
 open Gql.Syntax in
+/-- **C08-3 `render_lex` for values whose strings hold verbatim surrogate pairs** (`Val.wfP`:
+`Val.wf` with `Paired s` in place of "every code point of `s` is a scalar value" at the two string
+leaves — what `parse_value_literal` can build from ANY source text, `parse_wf_value_full`).
+Statement as `render_lex_value`. -/
+theorem render_lex_value_paired (w : Widths) (hw : 4 ≤ w.object) (c : Bool) (v : Val) (hwf : Val.wfP c v)
+    (k : Nat) : Lexes true (indentLF k (Val.print w v)) v.kvs :=
+  lexVP w hw c escape_table_entries_decode escape_table_covers_required v hwf k
+
+open Gql.Syntax in
+/-- **C08 for the VALUE and CONST VALUE entry points, typed trees with verbatim surrogate pairs.**
+`roundtrip_value` for `Val.wfP` (every `Val.wf` tree is `Val.wfP`: `Val.wfP_of_wf`): the printer
+model prints the tree without crashing and the real parser model rebuilds it from the printed
+text. -/
+theorem roundtrip_value_paired (w : Widths) (hw : 4 ≤ w.object) (cfg : Cfg) (hm : cfg.maxTokens = none)
+    (c : Bool) (v : Val) (hwf : Val.wfP c v) :
+    ∃ text, printAst w v.toAst = .ok text ∧
+      parseSource (if c then .constValue else .value) cfg text = .ok v.toAst :=
+  ⟨Val.print w v, printAst_val w v,
+    parseSource_value_printP cfg hm w hw escape_table_entries_decode escape_table_covers_required c v hwf⟩
+
+-- non-vacuity: `["a<U+D83D><U+DE00>", {k: """<U+D83D><U+DE00>"""}]` is `Val.wfP` but not `Val.wf`
+example : Val.wfP true (.list [.str [97, 0xD83D, 0xDE00] false, .obj [([107], .str [0xD83D, 0xDE00] true)]]) ∧
+    ¬ Val.wf true (.list [.str [97, 0xD83D, 0xDE00] false, .obj [([107], .str [0xD83D, 0xDE00] true)]]) := by
+  refine ⟨⟨⟨by decide, fun h => by cases h⟩, ⟨by decide, ⟨by decide, fun _ => by decide⟩, trivial⟩, trivial⟩, ?_⟩
+  intro h
+  have := h.1.1 0xD83D (by simp)
+  revert this; decide
+
+open Gql.Syntax in
 /-- **`parse_wf` for the VALUE and CONST VALUE entry points, no hypothesis on the source text.**
 Every tree `parse_value` (`c = false`) / `parse_const_value` (`c = true`) returns — any source text,
 any flags, any `max_tokens` — is the tree of a `Val` that is well formed *up to verbatim surrogates*
@@ -235,7 +313,9 @@ block-representable (`lex_block_representable`), and every code point of a strin
 Unicode scalar value or a surrogate that stands verbatim in the source text (`ChOk src`; inversion
 of `read_string` / `read_block_string` through the StringValue / BlockString grammar: escapes decode
 to scalar values only, a surrogate can only come from a leading+trailing pair the lexer accepts
-verbatim as one SourceCharacter). -/
+verbatim as one SourceCharacter), and every string value is `Paired` (since this round `Val.wfG`
+carries it: inversion of `read_string` / `read_block_string`, `readString_paired`,
+`readBlockString_paired` — a surrogate in a string value is half of a leading+trailing pair). -/
 theorem parse_wf_value_surrogates (cfg : Cfg) (c : Bool) (src : List Nat) (d : Ast)
     (h : parseSource (if c then .constValue else .value) cfg src = .ok d) :
     ∃ v : Val, Val.wfG (ChOk src) c v ∧ d = v.toAst :=
@@ -256,6 +336,46 @@ theorem parse_wf_value (cfg : Cfg) (c : Bool) (src : List Nat) (hsrc : ∀ x ∈
     (d : Ast) (h : parseSource (if c then .constValue else .value) cfg src = .ok d) :
     ∃ v : Val, Val.wf c v ∧ d = v.toAst :=
   parseSource_value_wf cfg c src hsrc d h
+
+open Gql.Syntax in
+/-- **`parse_wf` for the VALUE and CONST VALUE entry points, EVERY source text** (`hsrc` removed).
+Every tree `parse_value` (`c = false`) / `parse_const_value` (`c = true`) returns — any source text,
+surrogates included, any flags, any `max_tokens` — is the tree of a `Val` that is well formed in the
+sense of `roundtrip_value_paired` (`Val.wfP`: as `Val.wf`, string values `Paired`). -/
+theorem parse_wf_value_full (cfg : Cfg) (c : Bool) (src : List Nat) (d : Ast)
+    (h : parseSource (if c then .constValue else .value) cfg src = .ok d) :
+    ∃ v : Val, Val.wfP c v ∧ d = v.toAst :=
+  parseSource_value_wfP cfg c src d h
+
+open Gql.Syntax in
+/-- **C08 for the VALUE and CONST VALUE entry points, EVERY source text** — `roundtrip_full`
+instantiated for `parse_value` / `parse_const_value` with no hypothesis on the text or the tree:
+whatever `parse_value` / `parse_const_value` returns for any source text (verbatim surrogate pairs
+inside strings included) prints, without a crash, to text that parses to the same tree.  Remaining
+hypotheses: no `max_tokens` limit on the re-parse, and widths with `object ≥ 4` (as generated; an
+empty object prints as `{  }`). -/
+theorem roundtrip_value_parsed_full (w : Widths) (hw : 4 ≤ w.object) (cfg : Cfg) (hm : cfg.maxTokens = none)
+    (c : Bool) (src : List Nat) (d : Ast)
+    (h : parseSource (if c then .constValue else .value) cfg src = .ok d) :
+    ∃ text, printAst w d = .ok text ∧ parseSource (if c then .constValue else .value) cfg text = .ok d := by
+  obtain ⟨v, hwf, rfl⟩ := parse_wf_value_full cfg c src d h
+  exact roundtrip_value_paired w hw cfg hm c v hwf
+
+-- non-vacuity: a source text with a verbatim pair inside a string parses (it is the printed text of
+-- a `Val.wfP` tree), so the hypothesis of `roundtrip_value_parsed_full` is met by texts that
+-- `roundtrip_value_parsed` excludes
+example (w : Gql.Syntax.Widths) (hw : 4 ≤ w.object) :
+    ∃ src d, (¬ ∀ x ∈ src, isSurr x = false) ∧ Gql.Syntax.parseSource .constValue {} src = .ok d := by
+  obtain ⟨text, hp, h⟩ := roundtrip_value_paired w hw {} rfl true (.str [0xD83D, 0xDE00] false)
+    ⟨by decide, fun h => by cases h⟩
+  refine ⟨text, _, ?_, h⟩
+  have ht : text = Val.print w (.str [0xD83D, 0xDE00] false) := by
+    have := Gql.Text.printAst_val w (.str [0xD83D, 0xDE00] false)
+    rw [this] at hp; cases hp; rfl
+  subst ht
+  intro hall
+  have := hall 0xD83D (by simp [Val.print]; decide)
+  revert this; decide
 
 open Gql.Syntax in
 /-- **C08 for the VALUE and CONST VALUE entry points with no well-formedness hypothesis on the
@@ -431,20 +551,16 @@ documents of executable definitions, type-system definitions and extensions
 (`roundtrip_document_partial`, stages 1–3: everything except arguments on fragment spreads and
 `extend directive`, both behind experimental flags), each for
 the typed well-formed trees, and with no hypothesis at all for the type entry point
-(`parse_wf_type`, `roundtrip_type_parsed`) and, for source texts without surrogate code points, for
-the value and const-value entry points (`parse_wf_value`, `roundtrip_value_parsed`; without that
-hypothesis `parse_wf_value_surrogates` gives the tree up to string values holding surrogates copied
-verbatim from the text); **not proved**: those two node families, the converse `parse_wf` for
+(`parse_wf_type`, `roundtrip_type_parsed`) and for the value and const-value entry points
+(`parse_wf_value_full`, `roundtrip_value_parsed_full`: every source text, verbatim surrogate pairs
+inside strings included — `printString_roundtrip_paired`, `block_roundtrip_paired`,
+`roundtrip_value_paired`); **not proved**: those two node families, the converse `parse_wf` for
 documents beyond its first two layers (`parse_wf_selection_set_partial`,
 `parse_wf_executable_definition_partial`: arguments, directives, selection sets, variable
 definitions, operation and fragment definitions are done; type-system definitions / extensions and
-the keyword dispatch of `parse_definition` are not), and the round trip of string values that hold a
-verbatim surrogate pair (a STRING / BLOCK_STRING value is a list of scalar values unless the source
-text itself holds a leading surrogate immediately followed by a trailing surrogate inside the string —
-`read_string` accepts such a pair verbatim (`is_supplementary_code_point`), a lone surrogate is a
-syntax error, and `\uD83D\uDE00` escapes decode to one scalar value; values with such a verbatim
-pair are exactly what `isScalar` in `printString_roundtrip` / `Val.wf` / `Exec.descWf` excludes; on
-the implementation they print verbatim and read back).
+the keyword dispatch of `parse_definition` are not), and, at the DOCUMENT level only, string values
+and descriptions that hold a verbatim surrogate pair (`Exec.gdefsWf` / `Exec.descWf` still ask for
+scalar values; the value sub-grammar no longer does: `Val.wfP`).
 What is proved: every string token of the printed text reads back to its value
 (`printString_roundtrip`, `block_roundtrip`, `block_indent_roundtrip`, `lex_block_representable`)
 and the type sub-grammar (`type_print_lex`).  On the implementation the relation below is
